@@ -85,7 +85,7 @@ package remote
 // succeeds) exactly one status is reported for every recipient recorded on that connection, under the recorded address.
 //@ import gosmtp "github.com/emersion/go-smtp"
 //@ func (*remoteDelivery).BodyNonAtomic$1
-//@   prop C09 C05
+//@   prop C09 C05 C01
 // C05: message content is handed only to a connection of the delivery's table, and never for a quarantined message.
 //@   assert-call (*smtpconn.C).Data : $c == conn.C && !rd.msgMeta.Quarantine
 //@   modifies gStCnt, mxConn.errored, mxConn.lastUseAt, *conn.C.cl, gosmtp.SMTPError.Code, gosmtp.SMTPError.EnhancedCode, sync.WaitGroup.sema, sync.WaitGroup.state, fsSt, fsData
@@ -96,7 +96,7 @@ package remote
 // BodyNonAtomic: a quarantined message is never transmitted: every recorded recipient gets exactly one (failure)
 // status and no connection is used; otherwise one reporting goroutine is started per connection of the transaction.
 //@ func (*remoteDelivery).BodyNonAtomic
-//@   prop C09 C05
+//@   prop C09 C05 C01
 //@   modifies *
 //@   requires rdOK(rd) && c != nil && b != nil
 //@   ensures old(rd.msgMeta.Quarantine) ==> (forall r string :: gStCnt[r] == old(gStCnt)[r] + occ(old(rd.recipients), len(old(rd.recipients)), r))
